@@ -16,16 +16,162 @@ CODES = {1: "Add headers differ from model", 2: "Dump bytes differ from model", 
          4: "Apply status differs from model", 5: "Apply bytes differ from model", 6: "in-place/rename choice differs",
          7: "SPEC: result is not the reference splice"}
 
+# ---------------------------------------------------------------- histories: which file does Apply write to?
+OPTAG = {"create": 1, "write": 2, "unlink": 3, "link": 4, "rename": 5, "mkdir": 6, "symlink": 7, "open": 8, "seek": 9, "openro": 10}
+
+def hist_val(c):
+    ops = []
+    for o in c["ops"]:
+        t = OPTAG[o["op"]]
+        a = o.get("a", "").encode()
+        b = bytes.fromhex(o.get("b", "")) if t in (1, 2) else o.get("b", "").encode()
+        ops.append([t, a, b, o.get("n", 0)])
+    return [2, [ops, [[x["off"], x["old"], Hex(x["blob"])] for x in (c["patches"] or [])], c["outpath"].encode()]]
+
+def canon(name):
+    return name[2:] if name.startswith("./") else name
+
+def py_in_domain(patches, n):
+    pos = 0
+    for x in patches:
+        if x["off"] < pos or x["old"] < 0 or x["off"] + x["old"] > n:
+            return False
+        pos = x["off"] + x["old"]
+    return True
+
+def py_splice(patches, data):
+    """the property text, left to right: the original bytes with each listed range replaced by its new content"""
+    out, pos = bytearray(), 0
+    for x in patches:
+        out += data[pos:x["off"]]
+        out += bytes.fromhex(x["blob"])
+        pos = x["off"] + x["old"]
+    out += data[pos:]
+    return bytes(out)
+
+def hist_oracle(ctx, hist):
+    """model-free: judged from the property text on what the real code left in the directory"""
+    stats = {"in_domain": 0, "inplace_seen": 0, "rewrite_seen": 0, "errors_seen": 0}
+    groups = {}
+    found = {}     # key -> [count, best (rank, detail, replay)]: one replay per key, the simplest failing history
+
+    def report(key, detail, rep, c):
+        rank = (len(c["patches"] or []) == 0, len(c["ops"]), len(c["patches"] or []), c["id"])
+        ent = found.setdefault(key, [0, None])
+        ent[0] += 1
+        if ent[1] is None or rank < ent[1][0]:
+            ent[1] = (rank, detail, rep)
+    for c in hist:
+        if c.get("skipped"):
+            continue
+        patches = c["patches"] or []
+        hb = bytes.fromhex(c["handle_before"])
+        eff = canon(c["outpath"] or c["handle_name"])
+        before = {e["name"]: e for e in c["before"] or []}
+        after = {e["name"]: e for e in c["after"] or []}
+        dom = py_in_domain(patches, len(hb))
+        rep = {"hist_cases": [c]}
+        view = lambda e: None if e is None else (e["kind"], e["data"])
+        if c.get("tmp_left"):
+            report("C12:tmp-left", "temporary file left beside output", rep, c)
+        if c["status"] == 0:
+            wrote_handle = c["handle_after"] != c["handle_before"]
+            if wrote_handle:
+                stats["inplace_seen"] += 1
+                b = before.get(eff)
+                if b is None or not b["same"] or b["nlink"] != 1:
+                    report("C12:history:inplace-on-foreign-inode",
+                                  "Apply wrote through the handle although the output path %r %s (history %s)" %
+                                  (eff, "did not exist" if b is None else "named %s with %d link(s)" %
+                                   ("the handle's file" if b["same"] else "a different file", b["nlink"]),
+                                   " ".join(o["op"] for o in c["ops"])), rep, c)
+            else:
+                stats["rewrite_seen"] += 1
+            if dom:
+                stats["in_domain"] += 1
+                want = py_splice(patches, hb).hex()
+                got = after.get(eff)
+                if got is None or got["kind"] != 0 or got["data"] != want:
+                    report("C12:history:outpath-not-splice",
+                                  "Apply returned nil but the file at output path %r holds %s, not the splice %s of the handle's bytes (history: %s; outpath arg %r; via %s)" %
+                                  (eff, "nothing" if got is None else ("a directory", "a non-regular entry")[got["kind"] - 1] if got["kind"] else got["data"], want,
+                                   " ".join(o["op"] + ":" + o.get("a", "") for o in c["ops"]), c["outpath"], c["via"]), rep, c)
+                groups.setdefault(json.dumps([c["ops"], patches]), []).append((c, None if got is None else got["data"]))
+        else:
+            stats["errors_seen"] += 1
+            if view(before.get(eff)) != view(after.get(eff)) or c["handle_after"] != c["handle_before"]:
+                report("C12:history:error-touched-target", "Apply returned an error (%s) but the target changed" % c.get("err_text"), rep, c)
+            b = before.get(eff)
+            if dom and (b is None or b["kind"] != 1) and c.get("handle_ro") and b is not None and b["same"] and b["nlink"] == 1:
+                report("C12:history:inplace-readonly-handle",
+                       "Apply through a READ-ONLY handle (os.Open, as cmdline/shared.OpenForPatching does when -o is not textually -f) to the path %r that names the handle's own single-link file fails with %r instead of falling back to write-then-rename; any other output path succeeds (history: %s; outpath arg %r)" %
+                       (eff, c.get("err_text"), " ".join(o["op"] + ":" + o.get("a", "") for o in c["ops"]), c["outpath"]), rep, c)
+            elif dom and (b is None or b["kind"] != 1):
+                report("C12:history:valid-apply-refused",
+                       "Apply refused (%s) a patch set whose ranges lie inside the handle's file, output path %r %s (history: %s; outpath arg %r)" %
+                       (c.get("err_text"), eff, "absent" if b is None else "not a directory",
+                        " ".join(o["op"] + ":" + o.get("a", "") for o in c["ops"]), c["outpath"]), rep, c)
+        for name in set(before) | set(after):
+            if name != eff and not name.startswith(".new") and ".tmp" not in name and view(before.get(name)) != view(after.get(name)):
+                report("C12:history:other-name-modified",
+                              "Apply to %r changed %r from %s to %s" % (eff, name, view(before.get(name)), view(after.get(name))), rep, c)
+    for g in groups.values():
+        if len(set(d for _, d in g)) > 1:
+            report("C12:history:strategies-differ", "same history and patch set, different output paths, different resulting bytes: %s (history: %s)" %
+                   (sorted(set((c["outpath"], d) for c, d in g)), " ".join(o["op"] + ":" + o.get("a", "") for o in g[0][0]["ops"])),
+                   {"hist_cases": [c for c, _ in g]}, g[0][0])
+    for key in sorted(found):
+        n, (_, detail, rep) = found[key]
+        ctx.violation(key, "%s [%d failing cases in this run]" % (detail, n), rep)
+    stats["oracle_failures"] = dict((k, v[0]) for k, v in found.items())
+    return stats
+
+def hist_correspondence(ctx, hist):
+    """real code vs the extracted model (C12.Run.run_history_case); also python splice vs Coq splice"""
+    live = [c for c in hist if not c.get("skipped")]
+    res = ctx.run_model([hist_val(c) for c in live])
+    bad = []
+    agree_inplace = 0
+    for c, r in zip(live, res):
+        if len(r) < 9:
+            bad.append((c, "model has no handle"))
+            continue
+        status, chose, dom, allowed, hbefore, spec, eff, listing, hafter = r
+        why = []
+        if status != c["status"]:
+            why.append("status model %d real %d" % (status, c["status"]))
+        if str(hbefore) != c["handle_before"]:
+            why.append("handle bytes before Apply: model %s real %s" % (hbefore, c["handle_before"]))
+        if str(hafter) != c["handle_after"]:
+            why.append("handle bytes after Apply: model %s real %s" % (hafter, c["handle_after"]))
+        ml = sorted((bytes.fromhex(e[0]).decode(), e[1], str(e[2]) if e[1] == 0 else "", bool(e[3]) if e[1] == 0 else False, e[4] if e[1] == 0 else 0) for e in listing)
+        rl = sorted((e["name"], e["kind"], e["data"], e["same"], e["nlink"]) for e in c["after"] or [])
+        if ml != rl:
+            why.append("directory after Apply: model %s real %s" % (ml, rl))
+        pd = py_in_domain(c["patches"] or [], len(bytes.fromhex(c["handle_before"])))
+        if bool(dom) != pd or (pd and str(spec) != py_splice(c["patches"] or [], bytes.fromhex(c["handle_before"])).hex()):
+            why.append("the two reference splices disagree")
+        if chose and not allowed:
+            why.append("model chose in-place where the specification does not allow it")
+        agree_inplace += chose
+        if why:
+            bad.append((c, "; ".join(why)))
+    return bad, len(live), agree_inplace
+
 def run(ctx, replay=None):
     st = ctx.prepare(["C12_gen"], ["C12"], "C12.Run")
     model_ok = st["model_ok"]
     if not st["harness_ok"]:
         return ctx.finish("proof", ctx.proof_coverage([], ["lib/binpatch"]), [])
     # ---- run the implementation
+    hist = []
     if replay:
         rp = json.load(open(replay))
         cases = rp.get("cases", [])
         big = []
+        if rp.get("hist_cases"):     # re-run the recorded histories against the real code
+            rc, outh, errh = ctx.drv(["c12hist-replay"], input="\n".join(json.dumps(c) for c in rp["hist_cases"]) + "\n")
+            hist = [json.loads(l) for l in outh.splitlines() if l.strip()]
     else:
         rc, out, err = ctx.drv(["c12"])
         if rc != 0:
@@ -34,6 +180,11 @@ def run(ctx, replay=None):
         cases = [json.loads(l) for l in out.splitlines() if l.strip()]
         rc, out2, err2 = ctx.drv(["c12big"])
         big = [json.loads(l) for l in out2.splitlines() if l.strip()]
+        rc, outh, errh = ctx.drv(["c12hist"])
+        if rc != 0:
+            ctx.violation("C12:driver-crash", "history driver failed: " + errh[-400:], {"stderr": errh[-2000:]}, False)
+            outh = ""
+        hist = [json.loads(l) for l in outh.splitlines() if l.strip()]
     byid = {c["id"]: c for c in cases}
     # direct (model-free) oracle checks on the implementation
     n_trunc = 0
@@ -46,9 +197,12 @@ def run(ctx, replay=None):
             ctx.violation("C12:tmp-left", "temporary file left beside output", {"cases": [c]})
         if not c.get("input_same", True) and c["status"] >= 0:
             ctx.violation("C12:input-modified", "input modified although output path differs", {"cases": [c]})
+    hstats = hist_oracle(ctx, hist)
     mism, ndomain, evaluated = [], 0, 0
+    hist_bad, hist_eval, hist_inplace = [], 0, 0
     if model_ok:
         try:
+            hist_bad, hist_eval, hist_inplace = hist_correspondence(ctx, hist)
             res = ctx.run_model([case_val(c) for c in cases])
             for c, (codes, dom) in zip(cases, res):
                 ndomain += dom
@@ -73,17 +227,26 @@ def run(ctx, replay=None):
         ctx.violation("C12:correspondence", "model and implementation disagree (%s) on %d cases; none violates the reference splice" %
                       ("; ".join(CODES[c] for c in cs), len(corr_fail)), {"cases": [byid[i]], "codes": cs,
                       "broken": "correspondence C12.Run.check_case"}, False)
+    if hist_bad and not any(v[2] and v[3].startswith("C12:history") for v in ctx.violations):
+        c, why = hist_bad[0]
+        ctx.violation("C12:correspondence:history", "model of Apply over file-system histories and the real code disagree on %d cases (first: %s); no case violates the property text" %
+                      (len(hist_bad), why[:600]), {"hist_cases": [c], "broken": "correspondence C12.Run.run_history_case"}, False)
     ctx.proof_verdict()
     kinds = {}
+    for c in hist:
+        k = "%s/%s/out=%s" % (c["kind"], c["shape"], c["outpath"] or "(empty)")
+        kinds[k] = kinds.get(k, 0) + 1
     for c in cases:
         kinds[c["kind"] + "/" + c["mode"]] = kinds.get(c["kind"] + "/" + c["mode"], 0) + 1
-    cov = ctx.proof_coverage(["srcgen translator (constants, struct layouts, branch conditions of Add/Load/Apply/applyRewrite/canOverwrite)",
+    cov = ctx.proof_coverage(["srcgen translator (constants, struct layouts, branch conditions of Add/Load/Apply/applyRewrite/canOverwrite/hasLinks; statement-level translation of Apply's strategy choice)",
                               "correspondence harness cmd/drv c12 (real binpatch.Add/Dump/Load/Apply on temp files)",
-                              "OS file semantics (WriteAt/Truncate/SameFile/Nlink) modelled as functions on byte lists"], ["lib/binpatch"])
+                              "OS file semantics (WriteAt/Truncate on byte lists; Lstat/fstat/SameFile/Nlink/rename/link/unlink over a one-directory inode table, C12/FsModel.v) — compared with the real file system on every history case"], ["lib/binpatch"])
     cov.update({
-           "evaluations": evaluated + len(big), "distinct_nontrivial": ndomain,
-           "rule": "exhaustive 1-call and 2-call Add sequences on small files x {same,other,hardlink,absent} + random builder-like sequences + >4GiB header arithmetic; non-trivial = in the property's domain (disjoint in-bounds ranges, distinct offsets) as decided by C12.Run.in_domain",
-           "samples": [dict((k, c[k]) for k in ("kind", "file", "calls", "mode", "status", "out")) for c in cases[100:103]],
+           "evaluations": evaluated + len(big) + hist_eval, "distinct_nontrivial": ndomain + hstats["in_domain"],
+           "history_cases": {"run": len(hist), "model_evaluated": hist_eval, "model_mismatches": len(hist_bad), "model_chose_inplace": hist_inplace, **hstats},
+           "rule": "exhaustive 1-call and 2-call Add sequences on small files x {same,other,hardlink,absent} + random builder-like sequences + >4GiB header arithmetic + file-system histories (every sequence of <= 2 operations out of 25 after the open, 5 preludes, random longer ones) x 6 output paths x 8 patch shapes x {Apply, Dump->ApplyBinPatch}; non-trivial = in the property's domain (disjoint in-bounds ranges, distinct offsets) as decided by C12.Run.in_domain",
+           "samples": [dict((k, c[k]) for k in ("kind", "file", "calls", "mode", "status", "out")) for c in cases[100:103]] +
+                      [dict((k, c[k]) for k in ("kind", "ops", "shape", "outpath", "via", "status", "after")) for c in hist[5000:5002]],
            "exhaustive": False, "input_distribution": kinds, "truncation_sweeps": n_trunc,
            "model_mismatches": len(mism)})
     return ctx.finish("proof", cov, ["POSIX rename atomicity and file semantics", "sort.Sort instability excluded by distinct-offset domain"])
